@@ -3,7 +3,7 @@
    the correspondence check runs against text/tape.rs; the document type, `flatten`, `render`
    and the layout predicates are TextDoc.v (Coq counterpart of props/textdoc.py). *)
 From JV Require Import Bytes Tables TextTok TextTape TextDoc.
-From JV.proofs Require Import TextScanProofs.
+From JV.proofs Require Import TextScanProofs TextParseProofs.
 Open Scope nat_scope.
 
 (* 1. the byte set tested by the SSE2 compare chain of split_at_scalar (operands regenerated from
@@ -42,3 +42,18 @@ Print Assumptions C01_skip_ws_spec.
 Example C01_gap_nonvacuous :
   gap_ok [32; 35; 97; 123; 34; 61; 35; 10; 13; 10; 9; 59; 32]%N.
 Proof. apply gap_okb_sound. reflexivity. Qed.
+
+(* 5. THE PROPERTY (full statement, kept visible; proved below for growing sub-grammars):
+
+   Theorem C01_parse_render : forall d l,
+     wf_doc d -> wf_layout d l -> parse (render d l) = Ok (flatten d, bom l).
+   Corollary C01_layout_independent : forall d l1 l2,
+     wf_doc d -> wf_layout d l1 -> wf_layout d l2 ->
+     omap fst (parse (render d l1)) = omap fst (parse (render d l2)).                              *)
+
+(* stage 1: top-level fields `key op scalar` — all 8 operators, quoted and unquoted keys and
+   values, EVERY layout (gaps of white space, CR/LF, ';', comments; BOM; left padding) *)
+Theorem C01_parse_render_flat : forall d l,
+  flat_doc d = true -> wf_doc d -> wf_layout d l -> parse (render d l) = Ok (flatten d, bom l).
+Proof. exact parse_render_flat. Qed.
+Print Assumptions C01_parse_render_flat.
